@@ -347,10 +347,17 @@ theorem mview_context {w : World} {a : Arch} (ctx : Ctx) (hsp : ctx.has a a.spNa
     (hlr : a.leafOk = true → (ctx.has a (lrName a) = true ∨
       ∀ rec, cfiRecordAt w ctx.ip = some rec → tokenize rec.init ≠ leafToks a)) :
     MView w a (Frame.ofCtx ctx .context) (initState a ctx) := by
-  refine ⟨hm, rfl, rfl, ?_, hsp, rfl, ?_, ?_, ?_⟩
+  refine ⟨hm, rfl, rfl, ?_, hsp, rfl, ?_, ?_, ?_, ?_⟩
   · have := hfit a.spName (spName_registers a)
     rw [raw_spName] at this
     exact this
+  · intro v hv
+    have hv' : (if ctx.has a a.fpName = true then some (ctx.raw a a.fpName) else none) = some v := hv
+    split at hv'
+    · injection hv' with hv'
+      rw [← hv']
+      exact hfit a.fpName (calleeSaved_registers (by have := (fpName_calleeSaved a).1; simpa using this))
+    · cases hv'
   · intro r v hl
     obtain ⟨h1, h2, h3⟩ := lookup_filter_map_mem
       (p := fun r => decide (r ≠ a.fpName ∧ r ≠ a.spName ∧ ctx.hasLit r = true))
